@@ -28,6 +28,7 @@ func init() {
 			"firmware structures are packed: the bytes of a structure are the sum of its field sizes (trailing Go alignment padding is not part of it)",
 		},
 		Controls: []Control{
+			{Name: "search window ends early", File: "kernel/device/acpi/acpi.go", Old: "rsdpLocationHi  uintptr = 0xfffff", New: "rsdpLocationHi  uintptr = 0xfffdf", Expect: "C14.R3 search-window"},
 			{Name: "insert before the error test", File: "kernel/device/acpi/acpi.go",
 				Old: "\t\tif header, _, err = mapACPITable(addr); err != nil {\n", New: "\t\tif header, _, err = mapACPITable(addr); header != nil {\n\t\t\tdrv.tableMap[string(header.Signature[:])] = header\n\t\t}\n\t\tif err != nil {\n", Expect: "C14.R1"},
 			{Name: "checksum result ignored in mapACPITable", File: "kernel/device/acpi/acpi.go",
